@@ -624,6 +624,21 @@ func genSeq(r *rand.Rand, nops int, wild bool) []op {
 			case 2:
 				o.gen = uint8(r.Uint32())
 			}
+			// quiescence-like and all-zero records: depth 0, score 0, often no move, bound code 0 and
+			// generation 0 — the stored entry then coincides (partly or wholly) with the zero value of
+			// the entry struct, which an implementation may mistake for "free lane"
+			if r.IntN(10) == 0 {
+				o.d, o.val = 0, 0
+				if r.IntN(2) == 0 {
+					o.mv = 0
+				}
+				if r.IntN(2) == 0 {
+					o.typ = 0
+				}
+				if r.IntN(2) == 0 {
+					o.gen = 0
+				}
+			}
 			ops = append(ops, o)
 		default:
 			ops = append(ops, op{kind: opGet, hash: fam.hash(r), ply: genPly(r, wild)})
@@ -677,6 +692,11 @@ func (rn *runner) runSeq(ops []op, wild bool, rng *rand.Rand) {
 		a := c.step(i, o)
 		add(i, o.line(), a)
 		rn.res.Count("op:"+strings.Fields(o.line())[0], 1)
+		if o.kind == opIns && o.d == 0 && o.val == 0 && o.mv == 0 && o.typ == 0 && o.gen == 0 {
+			rn.res.Count("ins:all-zero-record", 1)
+		} else if o.kind == opIns && o.d == 0 && o.val == 0 {
+			rn.res.Count("ins:depth0-score0", 1)
+		}
 		nb := 0
 		if c.im.t != nil {
 			nb = c.im.t.VerifBuckets()
